@@ -615,8 +615,8 @@ def added_stream_waits(prefix, caps=(1, 2)):
                             [S("drop", "rx"), S("drop", "n1")], spins=[0, 0]))
         # the stream is added inside the phase, by the task that then waits on it
         threads = [sends("tx", 101, cap + 1, api="fsend", drop=True),
-                   [S("add_stream", "rxb", new="n2"), S("frecv_all", "n2")], [S("frecv_all", "rx")]]
+                   [S("add_stream", "rxb", new="n2"), S("drop", "rxb"), S("frecv_all", "n2")], [S("frecv_all", "rx")]]
         out.append(scenario("%s-F-in-c%d-%d" % (prefix, cap, k), "bcast", True, cap, "busy",
-                            [S("add_stream", "rx", new="rxb")], threads + [[S("frecv_all", "rxb")]],
-                            [S("drop", "rx"), S("drop", "rxb"), S("drop", "n2")], spins=[0, 0]))
+                            [S("add_stream", "rx", new="rxb")], threads,
+                            [S("drop", "rx"), S("drop", "n2")], spins=[0, 0]))
     return out
